@@ -62,14 +62,20 @@ func (m *Mutant) overlay(repo string) (map[string][]byte, error) {
 			}
 			src = b
 		}
-		if n := bytes.Count(src, []byte(old)); n != 1 {
-			return fmt.Errorf("anchor occurs %d times in %s", n, file)
+		if n := bytes.Count(src, []byte(old)); n == 0 {
+			return fmt.Errorf("anchor occurs 0 times in %s", file)
+		} else if n != 1 {
+			return fmt.Errorf("AMBIGUOUS anchor occurs %d times in %s", n, file)
 		}
 		ov[path] = bytes.Replace(src, []byte(old), []byte(nw), 1)
 		return nil
 	}
-	if err := apply(m.File, m.Old, m.New); err != nil {
-		return nil, err
+	if m.File != "" {
+		if err := apply(m.File, m.Old, m.New); err != nil {
+			return nil, err
+		}
+	} else if len(m.Edits) == 0 {
+		return nil, fmt.Errorf("AMBIGUOUS corpus entry without any edit")
 	}
 	for _, e := range m.Edits {
 		if err := apply(e.File, e.Old, e.New); err != nil {
@@ -88,7 +94,12 @@ func runMutant(repo, spec string) int {
 	}
 	ov, err := m.overlay(repo)
 	if err != nil {
-		fmt.Println("MUTANT-SKIP", err)
+		if strings.Contains(err.Error(), "occurs 0 times") {
+			fmt.Println("MUTANT-SKIP", err)
+		} else {
+			// an unreadable file, an anchor that is not unique: the corpus entry is broken, not stale
+			fmt.Println("MUTANT-NOCOMPILE", err)
+		}
 		return 0
 	}
 	p, err := Load(repo, "", ov)
